@@ -285,6 +285,13 @@ def builtin_call(ex, ev: Eval, node, fname):
     if fname == "abs":
         v = ev.expr(a[0])
         return V(v.t, z3.If(v.z >= 0, v.z, -v.z))
+    if fname == "tuple" and len(a) == 1:
+        v = ev.expr(a[0])
+        if isinstance(v.t, TList):
+            return v  # immutable copy of a list: same value
+        raise Unsupported(f"tuple({v.t})")
+    if fname in ("min", "max") and len(a) == 1 and isinstance(a[0], ast.GeneratorExp):
+        return genexp_extremum(ex, ev, node, fname)
     if fname in ("min", "max") and len(a) == 1:
         xs = ev.expr(a[0])
         if isinstance(xs.t, TList):
@@ -543,6 +550,68 @@ def dict_values_list(ex, ev, d: V):
     ev.st.vars["_key_at"] = key_at
     ev.st.vars["_pos_of"] = pos_of
     return out
+
+
+def _gen_domain(ex, ev, gen):
+    """symbolic element of a comprehension / generator domain: returns (bound value for the target, membership
+    condition of the fresh witness, quantifier maker)"""
+    it = gen.iter
+    if isinstance(it, ast.Call) and isinstance(it.func, ast.Attribute) and it.func.attr in ("values", "items", "keys"):
+        d = ev.expr(it.func.value)
+        if not isinstance(d.t, TDict):
+            raise Unsupported("generator over " + str(d.t))
+        key = fresh(d.t.k, "gk")
+        val = V(d.t.v, z3.Select(dict_val(d), key.z))
+        elem = {"values": val, "keys": key,
+                "items": mk_tuple(TTuple([d.t.k, d.t.v]), [key.z, val.z])}[it.func.attr]
+        return elem, z3.Select(dict_dom(d), key.z), [key.z], dict_card(d) > 0
+    v = ev.expr(it)
+    if isinstance(v.t, TList):
+        i = fresh(INT, "gi")
+        return V(v.t.elem, z3.Select(list_arr(v), i.z)), z3.And(0 <= i.z, i.z < list_len(v)), [i.z], list_len(v) > 0
+    if isinstance(v.t, TDict):
+        key = fresh(v.t.k, "gk")
+        return key, z3.Select(dict_dom(v), key.z), [key.z], dict_card(v) > 0
+    raise Unsupported("generator over " + str(v.t))
+
+
+def genexp_extremum(ex, ev, node, fname):
+    g = node.args[0]
+    if len(g.generators) != 1 or g.generators[0].ifs:
+        raise Unsupported("generator shape in min/max")
+    gen = g.generators[0]
+    elem, member, qvars, nonempty = _gen_domain(ex, ev, gen)
+    ev.ob("min-nonempty", nonempty, node)
+    st2 = ev.st.copy()
+    ex.assign(st2, gen.target, elem, Eval(ex, st2))
+    val = Eval(ex, st2, ev.spec, ev.bound, ev.old, ev.result).expr(g.elt)
+    if val.t not in (INT, REAL):
+        raise Unsupported("min/max of " + str(val.t))
+    r = ex.new_sym(val.t, "extremum", ev.st)
+    # r bounds every element and is attained by one of them (witness: fresh constants)
+    ev.st.pc.append(z3.ForAll(qvars, z3.Implies(member, (val.z <= r.z) if fname == "max" else (val.z >= r.z))))
+    wit = [z3.FreshConst(q.sort(), "wit") for q in qvars]
+    ev.st.pc.append(z3.substitute(z3.And(member, val.z == r.z), *zip(qvars, wit)))
+    return r
+
+
+def do_setcomp(ex, ev, node):
+    """{k for k, v in d.items() if cond}  /  {x for x in xs_set_or_dict if cond}: membership is pointwise"""
+    if len(node.generators) != 1:
+        raise Unsupported("set comprehension with several generators")
+    gen = node.generators[0]
+    elem, member, qvars, _ = _gen_domain(ex, ev, gen)
+    st2 = ev.st.copy()
+    ex.assign(st2, gen.target, elem, Eval(ex, st2))
+    sub = Eval(ex, st2, ev.spec, ev.bound, ev.old, ev.result)
+    out = sub.expr(node.elt)
+    if len(qvars) != 1 or not z3.simplify(out.z).eq(qvars[0]):
+        raise Unsupported("set comprehension whose element is not the iteration key")
+    cond = z3.And(*[sub.boolean(c) for c in gen.ifs]) if gen.ifs else z3.BoolVal(True)
+    r = ex.new_sym(TSet(out.t), "setcomp", ev.st)
+    ev.st.pc.append(z3.ForAll(qvars, z3.Select(set_mem(r), qvars[0]) == z3.And(member, cond),
+                              patterns=[z3.Select(set_mem(r), qvars[0])]))
+    return r
 
 
 def do_sorted(ex, ev, node, xs_value=None):
